@@ -263,6 +263,11 @@ def case_star(r, obs):
         obs.check(False, "star-import:lena.%s:%s" % (pkg, n),
                   "lena.%s.__all__ advertises %r, which lena.%s does not define; "
                   "'from lena.%s import *' gives %r" % (pkg, n, pkg, pkg, st["star"]))
+    for n in st.get("shadowed_by_submodule", []):
+        obs.check(False, "star-import:lena.%s:%s:bound-to-submodule" % (pkg, n),
+                  "lena.%s.__all__ advertises %r; the name is bound to the submodule lena.%s.%s "
+                  "(which itself defines %r), not to that object: the package no longer "
+                  "imports it" % (pkg, n, pkg, n, n))
     for n in st["not_in_star_namespace"]:
         obs.check(False, "star-import:lena.%s:%s:not-bound" % (pkg, n),
                   "'from lena.%s import *' does not bind %r" % (pkg, n))
